@@ -488,6 +488,21 @@ class C07(L1Prop):
             ops += [f"http GET gcv hyph={'base:1' if i == 0 else 'ver:1:%d' % (i - 1)} hyph=1 absent e" for i in range(n)]
             ops += ["http POST av hyph=latest:1 hyph=1 history b:8,8", "http GET gcv hyph=nil hyph=1 absent e"]
             out.append(Case(f"c07-allow-{k}", ops, {"http": True}, mode="http"))
+        # the real executable, killed with SIGKILL (every other time while another connection keeps the
+        # write-ahead log from being checkpointed) and restarted on its directory: every accepted version is
+        # still the child of its parent, before and after further uploads
+        for k in range(sizes(tier, 2, 10)):
+            n = rng.randint(2, 5)
+            ops = ["boot listen=flag:1 dir=flag allow=none versions=default days=default"]
+            if k % 2 == 0:
+                ops.append("hold")
+            ops += [f"http@0 POST av hyph={'nil' if i == 0 else 'latest:1'} hyph=1 history b:1,{i}" for i in range(n)]
+            reads = [f"http@0 GET gcv hyph={'nil' if i == 0 else 'ver:1:%d' % (i - 1)} hyph=1 absent e" for i in range(n)]
+            ops += reads + ["kill", "restart"] + reads + ["http@0 POST av hyph=latest:1 hyph=1 history b:2"] + reads
+            if k % 2 == 0:
+                ops.append("unhold")
+            ops.append("kill")
+            out.append(Case(f"c07-bin-{k}", ops, {"http": True, "only": "sqlite"}, mode="bin"))
         # history accepted by the pinned release stays what it was under this build
         def tail(name, c, nacc, snap, o):
             return [f"reread {c}", f"as {c} latest:{c} b:9,1", f"av {c} latest:{c} b:1,1", f"av {c} anc:{c}:2 b:1,2", f"reread {c}",
